@@ -278,6 +278,8 @@ type obsA struct {
 	Err     string   `json:"csrf_error,omitempty"`
 	DelErr  string   `json:"delete_token_error,omitempty"`
 	SetCk   *string  `json:"set_cookie_csrf"`
+	CkAttr  string   `json:"set_cookie_csrf_attributes,omitempty"`
+	CkGone  bool     `json:"set_cookie_csrf_already_expired,omitempty"` // non-empty value, but Expires is not after the (constant) clock or Max-Age is negative: a browser drops it
 	SetSid  *string  `json:"set_cookie_session,omitempty"`
 	Gen     []string `json:"tokens_generated,omitempty"`
 	Calls   []string `json:"storage_calls,omitempty"`
@@ -379,6 +381,15 @@ func (s *sut) do(method, tok, ck, sid string, del bool, failAt int, lay layout) 
 		switch string(c.Key()) {
 		case s.cfg.CkName:
 			ob.SetCk = &val
+			ob.CkGone, ob.CkAttr = false, ""
+			if exp := c.Expire(); !exp.Equal(fasthttp.CookieExpireUnlimited) {
+				ob.CkAttr = "Expires=clock" + exp.Sub(clock0).String()
+				ob.CkGone = val != "" && !exp.After(clock0)
+			}
+			if ma := c.MaxAge(); ma != 0 {
+				ob.CkAttr += fmt.Sprintf(" Max-Age=%d", ma)
+				ob.CkGone = ob.CkGone || (val != "" && ma < 0)
+			}
 		case "session_id":
 			ob.SetSid = &val
 		}
@@ -458,8 +469,8 @@ type stepInfo struct {
 
 func (rs *runState) learn(c *client, ob obsA) {
 	if ob.SetCk != nil {
-		if v := *ob.SetCk; v == "" {
-			c.Jar = ""
+		if v := *ob.SetCk; v == "" || ob.CkGone {
+			c.Jar = "" // removed, or set with an expiry that is already over: the client keeps nothing
 		} else {
 			c.Jar = v
 			if v != c.Cur {
@@ -803,6 +814,8 @@ func ckKind(si stepInfo, o opA) string {
 		return "none"
 	case *si.ob.SetCk == "":
 		return "expired"
+	case si.ob.CkGone:
+		return "already-expired-attributes"
 	case *si.ob.SetCk == o.Ck && si.CLive:
 		return "kept-live"
 	case *si.ob.SetCk == o.Ck:
@@ -860,7 +873,7 @@ func (rs *runState) judge(hist []opA, si stepInfo, j *judgeCtx) {
 		static := kind == "kept-live" || kind == "fresh"
 		probeReached, probeP := false, false
 		var pob obsA
-		if si.ob.Reached && si.ob.SetCk != nil && *si.ob.SetCk != "" {
+		if si.ob.Reached && si.ob.SetCk != nil && *si.ob.SetCk != "" && !si.ob.CkGone {
 			v := *si.ob.SetCk
 			probeP, _ = rs.m.allows(cfg.sameSlot(), v, v, rs.s.issued)
 			pob = rs.s.do("POST", v, v, rs.cl[o.Cl].Sid, false, -1, layout{})
@@ -1212,7 +1225,7 @@ func runA(r *core.Run, col *collector, samples *[]any, only string) map[string]a
 	for _, ext := range []string{"header", "cookie"} {
 		for _, su := range []bool{false, true} {
 			for _, be := range []string{"session-direct", "session-mw"} {
-				cfgs = append(cfgs, cfgA{Extractor: ext, Backend: be, SingleUse: su, Faults: 0, Depth: d(map[string]int{"header": 4, "cookie": 3}[ext], 6), Ticks: all, LongSess: true})
+				cfgs = append(cfgs, cfgA{Extractor: ext, Backend: be, SingleUse: su, Faults: 0, Depth: d(map[string]int{"header": 4, "cookie": 3}[ext], map[string]int{"header": 5, "cookie": 4}[ext]), Ticks: all, LongSess: true})
 			}
 		}
 	}
@@ -1302,7 +1315,7 @@ func runA(r *core.Run, col *collector, samples *[]any, only string) map[string]a
 			"clients": clientName, "configs": len(cfgs), "idle_timeout": idle.String(), "ticks": tickName,
 			"depth_storage_nofault": d(5, 7), "depth_storage_nofault_form_query_param": d(4, 7), "depth_storage_fault_header": d(4, 5), "depth_storage_fault_others": d(3, 5),
 			"depth_session": d(4, 6), "depth_session_form": d(3, 6), "depth_session_fault": d(3, 4), "depth_builtin": d(4, 5),
-			"depth_session_outliving_token_header": d(4, 6), "depth_session_outliving_token_cookie": d(3, 6), "session_idle_timeout_outliving": sessIdleLong.String(),
+			"depth_session_outliving_token_header": d(4, 5), "depth_session_outliving_token_cookie": d(3, 4), "session_idle_timeout_outliving": sessIdleLong.String(),
 			"max_injected_failures_per_history": 1,
 			"canonical_configs":                 nCanonical, "redundant_conflicting_field_configs": len(cfgs) - nCanonical, "depth_redundant_conflicting": d(3, 4),
 			"leftover_keylookups_next_to_explicit_extractor": leftoverLookups, "explicit_extractors": []string{"header", "form", "query", "param", "cookie (the CSRF cookie)", "cookie2 (another cookie)"},
